@@ -1,47 +1,59 @@
 import EdpVerif.Lemmas.Recv
+import EdpVerif.Props.C09
 import EdpVerif.Generated.Control
 /-
 C06 — receiving delivers each peer message exactly once, in order, and survives junk.
 
 Property theorems only. The model of the receive path is EdpVerif/Impl/Recv.lean (`recv`: one iteration of the loop of
-`Connection::receive_message` on a deframed body; `outs`/`recvAll`: what a frame history makes successive calls return;
-`recvRH`/`recvAllRH`: the read-half copy the node's receiver task runs), the frames of a conforming peer are
-EdpVerif/Spec/Peer.lean, the vocabulary (`Reads`, `Sent`, `HSent`, `Conforms`, `SelfContained`, `NoDecPanic`, `fragSeq`)
-and the helper lemmas are EdpVerif/Lemmas/Recv.lean. Deframing (length prefix, segmentation) is C05; that the bytes an
-encoder writes `Reads` as the term is C01/C03; the (segment, index) addressing of the atom cache is C14.
+`Connection::receive_message` on a deframed body at a clock reading — `cleanup_expired` on the assembler, then the
+dispatch; `outs`/`recvAll`: what a timed frame history makes successive calls return; `recvRH`/`recvAllRH`: the read-half
+copy the node's receiver task runs). The atom cache and the distribution-header parser are the model of property C14
+(EdpVerif/Impl/DistHeader.lean) — there is no second model of them. The frames of a conforming peer are
+EdpVerif/Spec/Peer.lean (framing) and EdpVerif/Spec/DistHeader.lean (`sendHeader`: the header a conforming sender with an
+atom cache writes; `Conforming`); a sender's history is `Props.C14.ConformingSeq`, and that the header parser resolves every
+position of every such history to the sender's atom is `C14_history`, which the header-mode theorems here build on.
+The vocabulary (`Reads`, `Sent`, `CSent`, `Framing`, `TermsConform`, `SeqsFree`, `SelfContained`, `Mono`, `NoDecPanic`,
+`fragSeq`, `CacheGrew`) and the helper lemmas are EdpVerif/Lemmas/Recv.lean and Lemmas/RecvHeader.lean (`Avoids`,
+`wroteSlots`). Deframing (length prefix, segmentation) is C05; that the bytes an encoder writes `Reads` as the term is
+C01/C03.
 
-"`bs` are the bytes of term `t`" is `Reads x c bs t`: the term decoder reads `bs` as `t` under atom cache `c` wherever they
-stand. Non-vacuity: `readsAt_nil`, `readsAt_small_int`, `readsAt_cache_ref`, `readsAt_tuple` (Lemmas/Recv.lean) and the
-examples below.
+"`bs` are the bytes of term `t`" is `Reads x c bs t`: the term decoder reads `bs` as `t` under the position table `c`
+(what `ATOM_CACHE_REF` looks into) wherever they stand. Non-vacuity: `readsAt_nil`, `readsAt_small_int`,
+`readsAt_cache_ref`, `readsAt_tuple` (Lemmas/Recv.lean) and the examples below.
 -/
 namespace Edp.Props.C06
-open Edp Edp.Recv Edp.Spec.Peer
+open Edp Edp.Recv Edp.Spec.Peer Edp.Spec.DistHeader Edp.DistHeader Edp.Props.C14
 
 /-! ### ticks -/
 
-/-- TICKS NEVER SURFACE: a tick (empty frame) ends no call and changes nothing, in every state. -/
-theorem C06_tick_is_skipped (x : Ext) (tbl : Control.Table) (s : St) : recv x tbl s tick = (s, none) := rfl
+/-- TICKS NEVER SURFACE: a tick (empty frame) ends no call and leaves the atom cache alone; all it does to the connection
+is the `cleanup_expired` every received frame triggers. -/
+theorem C06_tick_is_skipped (x : Ext) (tbl : Control.Table) (now : Nat) (s : St) :
+    (recv x tbl now s tick).2 = none ∧ (recv x tbl now s tick).1.cache = s.cache ∧
+      (recv x tbl now s tick).1.asm = (s.asm.cleanupExpired now).1 := ⟨rfl, rfl, rfl⟩
 
-/-- … and ticks anywhere in a history are invisible: any history returns exactly what it returns with its ticks removed
-(every state, every frame list, valid or not), through both receive functions. -/
-theorem C06_ticks_invisible (x : Ext) (tbl : Control.Table) (s : St) (fs : List Bytes) :
-    recvAll x tbl s fs = recvAll x tbl s (fs.filter (fun f => !isTick f)) ∧
+/-- … and ticks anywhere in a history are invisible: any history (every state, every frame list, valid or not, any clock
+that does not run backwards) returns exactly what it returns with its ticks removed, through both receive functions. -/
+theorem C06_ticks_invisible (x : Ext) (tbl : Control.Table) (s : St) (tfs : List TFrame) (hm : Mono tfs) (fs : List Bytes) :
+    recvAll x tbl s tfs = recvAll x tbl s (noTicks tfs) ∧
     recvAllRH x tbl fs = recvAllRH x tbl (fs.filter (fun f => !isTick f)) :=
-  ⟨recvAll_ticks x tbl s fs, recvAllRH_ticks x tbl fs⟩
+  ⟨recvAll_ticks x tbl s tfs hm, recvAllRH_ticks x tbl fs⟩
 
-example : recvAll Ext.none Gen.controlTable St.init [[], [112], []] = recvAll Ext.none Gen.controlTable St.init [[112]] :=
-  (C06_ticks_invisible _ _ _ _).1
+example : recvAll Ext.none Gen.controlTable St.init [(0, []), (5, [112]), (9, [])] =
+    recvAll Ext.none Gen.controlTable St.init [(5, [112])] :=
+  (C06_ticks_invisible _ _ _ _ (by simp [Mono]) []).1
 
 /-! ### exactly once, in order -/
 
 /-- EXACTLY ONCE, IN ORDER, PASS-THROUGH FORM: for every list of messages (any control tuple the library presents as
-`msg`, any payload, any size) sent as `112, 131, control [, 131, payload]` with ticks anywhere, in every state of the
-connection, successive `receive_message` calls return exactly the messages, each once, in order, payloads intact. -/
+`msg`, any payload, any size) sent as `112, 131, control [, 131, payload]` with ticks anywhere, at any clock readings, in
+every state of the connection, successive `receive_message` calls return exactly the messages, each once, in order,
+payloads intact. -/
 theorem C06_passthrough_exactly_once_in_order (x : Ext) (tbl : Control.Table) (s : St) (msgs : List Sent)
-    (hconf : ∀ m ∈ msgs, m.Conforms x tbl []) (fs : List Bytes)
-    (hfs : WithTicks fs (msgs.map fun m => passThrough m.wire)) :
-    recvAll x tbl s fs = msgs.map Sent.expected := by
-  rw [recvAll_ticks, hfs, recvAll, outs_passThrough x tbl s msgs hconf, filterMap_some_map, cutPanic_map_expected]
+    (hconf : ∀ m ∈ msgs, m.Conforms x tbl []) (tfs : List TFrame)
+    (hfs : WithTicks (bodies tfs) (msgs.map fun m => passThrough m.wire)) :
+    recvAll x tbl s tfs = msgs.map Sent.expected := by
+  rw [recvAll, filterMap_outs_passThrough x tbl tfs msgs s hconf hfs, cutPanic_map_expected]
 
 /-- the same through `receive_message_from_read_half` (the node's receiver task; `Node::connect` offers the default
 flags, which lack DIST_HDR_ATOM_CACHE, so pass-through is the only form the negotiated flags allow there) -/
@@ -54,7 +66,7 @@ theorem C06_readhalf_exactly_once_in_order (x : Ext) (tbl : Control.Table) (msgs
 /-- the NODE_LINK message `{5}` with payload `[]`, as bytes and as the library's message -/
 def nodeLink : Sent := { cb := [104, 1, 97, 5], ct := .tuple [.int 5], msg := .known "NodeLink" [], pay := some ([106], .nil) }
 
-theorem C06_witness_nodeLink_conforms (x : Ext) (c : Cache) : nodeLink.Conforms x Gen.controlTable c where
+theorem C06_witness_nodeLink_conforms (x : Ext) (c : PosTable) : nodeLink.Conforms x Gen.controlTable c where
   ctl := readsAt_tuple x c 0 (by simp [MAX_NESTING_DEPTH]) [[97, 5]] [.int 5]
     (.cons (readsAt_small_int x c 1 (by simp [MAX_NESTING_DEPTH]) 5) .nil) (by simp)
   pay := by
@@ -66,66 +78,107 @@ theorem C06_witness_nodeLink_conforms (x : Ext) (c : Cache) : nodeLink.Conforms 
 
 /-- non-vacuity: two such messages with a tick between them -/
 example (x : Ext) (s : St) :
-    recvAll x Gen.controlTable s [passThrough nodeLink.wire, [], passThrough nodeLink.wire] = [nodeLink.expected, nodeLink.expected] :=
+    recvAll x Gen.controlTable s [(3, passThrough nodeLink.wire), (4, []), (4, passThrough nodeLink.wire)] =
+      [nodeLink.expected, nodeLink.expected] :=
   C06_passthrough_exactly_once_in_order x Gen.controlTable s [nodeLink, nodeLink]
     (by intro m hm; simp at hm; subst hm; exact C06_witness_nodeLink_conforms x []) _ rfl
 
-/-- EXACTLY ONCE, IN ORDER, DISTRIBUTION-HEADER FORM: for every list of messages, each under its own distribution header
-`131, 68, N, flags, refs…, control [, payload]` whose references are new entries addressed by position (the library's own
-sender, any segment bits, short or long atom lengths, 0 to 255 atoms), the terms referring to the header's atoms by
-`ATOM_CACHE_REF`, with ticks anywhere, in every state (whatever the cache held before): exactly the messages, each once,
-in order. -/
-theorem C06_header_exactly_once_in_order (x : Ext) (tbl : Control.Table) (s : St) (msgs : List HSent)
-    (hconf : ∀ h ∈ msgs, h.Conforms x tbl) (fs : List Bytes) (hfs : WithTicks fs (msgs.map HSent.frame)) :
-    recvAll x tbl s fs = msgs.map fun h => h.m.expected := by
-  rw [recvAll_ticks, hfs, recvAll, outs_header x tbl msgs hconf s]
-  have := filterMap_some_map (fun h : HSent => h.m.expected) msgs
-  rw [this]
-  have e : (msgs.map fun h => h.m.expected) = (msgs.map (·.m)).map Sent.expected := by simp
+/-- EXACTLY ONCE, IN ORDER, DISTRIBUTION-HEADER FORM, FULL QUANTIFIER: for EVERY history of a conforming sender with an
+atom cache (`ConformingSeq`: in each message any number ≤ 255 of references — new entries carrying their text, references
+without text to slots that hold exactly that atom, overwrites —, any segment and internal index, header position
+independent of the slot, LongAtoms chosen freely as long as the lengths fit; any number of messages), each message sent
+either whole in a `131, 68` frame or as the single fragment `131, 69, seq, 1, …` of a sequence the assembler holds
+nothing for, with ticks anywhere and at any clock readings, from every state whose cache agrees slot by slot with the
+sender's (`St.init` and the empty sender in particular): successive `receive_message` calls return exactly the messages,
+each once, in order, control message and payload as the sender meant them — and afterwards the connection's cache agrees
+with the sender's again. -/
+theorem C06_header_exactly_once_in_order (x : Ext) (tbl : Control.Table) (s : St) (sndr : Slots)
+    (hs : List (CSent × Framing)) (tfs : List TFrame)
+    (hagree : SlotsAgree s.cache sndr) (hconf : ConformingSeq sndr (hs.map (·.1.c14)))
+    (hterms : ∀ p ∈ hs, p.1.TermsConform x tbl) (hseq : SeqsFree s.asm hs)
+    (hfs : WithTicks (bodies tfs) (hs.map fun p => p.1.framed p.2)) :
+    recvAll x tbl s tfs = hs.map (fun p => p.1.m.expected) ∧
+    SlotsAgree (after x tbl s tfs).cache (slotsAfter sndr (hs.map (·.1.c14))) := by
+  obtain ⟨h1, h2⟩ := outs_cached x tbl tfs hs s sndr hagree hconf hterms hseq hfs
+  refine ⟨?_, h2⟩
+  rw [recvAll, h1]
+  have e : (hs.map fun p => p.1.m.expected) = (hs.map (·.1.m)).map Sent.expected := by simp
   rw [e, cutPanic_map_expected]
 
-/-- `{5}` with payload `'a@h'`, the atom travelling in the header and referenced as `82, 0` -/
-def nodeLinkH : HSent :=
+/-- `{5}` with payload `'a@h'`: the atom is created in cache slot (segment 3, index 7) and referenced as `82, 0` -/
+def linkNew : CSent :=
   { m := { cb := [104, 1, 97, 5], ct := .tuple [.int 5], msg := .known "NodeLink" [], pay := some ([82, 0], .atom [97, 64, 104]) }
-    atoms := [[97, 64, 104]], segs := [3], long := false }
+    long := false, es := [⟨[97, 64, 104], 3, 7, true⟩] }
 
-theorem C06_witness_nodeLinkH_conforms (x : Ext) : nodeLinkH.Conforms x Gen.controlTable where
-  count := by decide
-  utf8 := by decide
-  lens := by decide
-  terms := by
-    intro c hc
+/-- the same message from a sender that knows the receiver holds the atom: a reference WITHOUT text to slot (3, 7) -/
+def linkOld : CSent := { linkNew with es := [⟨[97, 64, 104], 3, 7, false⟩] }
+
+theorem C06_witness_link_conforms (x : Ext) : linkNew.TermsConform x Gen.controlTable ∧ linkOld.TermsConform x Gen.controlTable := by
+  have h : ∀ (es : List Entry) (he : es.length = 1) (ha : es[0].atom = [97, 64, 104]) (c : PosTable), Holds c es →
+      linkNew.m.Conforms x Gen.controlTable c := by
+    intro es he ha c hc
     refine ⟨(C06_witness_nodeLink_conforms x c).ctl, ?_, by rfl⟩
     intro pb p h
-    simp only [nodeLinkH, Option.some.injEq, Prod.mk.injEq] at h
+    simp only [linkNew, Option.some.injEq, Prod.mk.injEq] at h
     obtain ⟨rfl, rfl⟩ := h
-    exact readsAt_cache_ref x c 0 (by simp [MAX_NESTING_DEPTH]) 0 _ (by simpa [nodeLinkH] using hc 0 (by simp [nodeLinkH]))
+    have := hc 0 (by omega)
+    rw [ha] at this
+    exact readsAt_cache_ref x c 0 (by simp [MAX_NESTING_DEPTH]) 0 _ (by simpa using this)
+  exact ⟨fun c hc => h _ rfl rfl c hc, fun c hc => h _ rfl rfl c hc⟩
 
-example (x : Ext) (s : St) :
-    recvAll x Gen.controlTable s [[], nodeLinkH.frame, nodeLinkH.frame, []] = [nodeLinkH.m.expected, nodeLinkH.m.expected] :=
-  C06_header_exactly_once_in_order x Gen.controlTable s [nodeLinkH, nodeLinkH]
-    (by intro m hm; simp at hm; subst hm; exact C06_witness_nodeLinkH_conforms x) _ rfl
+/-- non-vacuity: the atom is sent once; the second message (a single fragment) and the third refer to the cached entry;
+ticks in between; a fresh connection -/
+example (x : Ext) :
+    recvAll x Gen.controlTable St.init [(0, []), (1, linkNew.frame), (2, linkOld.single 9), (2, []), (7, linkOld.frame)] =
+      [linkNew.m.expected, linkNew.m.expected, linkNew.m.expected] := by
+  have hc := C06_witness_link_conforms x
+  refine (C06_header_exactly_once_in_order x Gen.controlTable St.init [] [(linkNew, .whole), (linkOld, .single 9), (linkOld, .whole)]
+    [(0, []), (1, linkNew.frame), (2, linkOld.single 9), (2, []), (7, linkOld.frame)] (fun _ => rfl) ?_ ?_ ?_ (by unfold WithTicks; decide)).1
+  · simp [ConformingSeq, Conforming, CSent.c14, linkNew, linkOld, upd, sendSlots, List.lookup, validUtf8, utf8Decode]
+  · intro p hp
+    simp at hp
+    rcases hp with rfl | rfl | rfl
+    · exact hc.1
+    · exact hc.2
+    · exact hc.2
+  · intro p hp seq hq
+    simp at hp
+    rcases hp with rfl | rfl | rfl <;> simp at hq
+    subst hq
+    exact ⟨by omega, rfl⟩
 
-/-- the frame really is the protocol's layout: `131, 68, N = 1, flags (new | segment 3; short atoms), index 0, len 3, a@h,
-{5}, ref 0` -/
-example : nodeLinkH.frame = [131, 68, 1, 0x0b, 0, 3, 97, 64, 104, 104, 1, 97, 5, 82, 0] := by decide
+/-- the frames really are the protocol's layout: `131, 68, N = 1, flags (new | segment 3; short atoms), index 7, len 3, a@h,
+{5}, ref 0`, and `131, 68, 1, flags (old | segment 3), index 7, {5}, ref 0` -/
+example : linkNew.frame = [131, 68, 1, 0x0b, 7, 3, 97, 64, 104, 104, 1, 97, 5, 82, 0] ∧
+    linkOld.frame = [131, 68, 1, 0x03, 7, 104, 1, 97, 5, 82, 0] := by decide
+
+/-- the library's own sender as a special case: a message that brings all its atoms along (every reference a new entry,
+any segment, any index) is delivered in EVERY state, whatever the cache held before -/
+theorem C06_header_all_new_any_state (x : Ext) (tbl : Control.Table) (now : Nat) (s : St) (h : CSent)
+    (hn : h.es.length ≤ 255) (hall : AllNew h.long h.es) (hv : ∀ e ∈ h.es, validUtf8 e.atom = true)
+    (ht : h.TermsConform x tbl) : (recv x tbl now s h.frame).2 = some h.m.expected :=
+  recv_allNew x tbl now s h hn hall hv ht
+
+example (x : Ext) (now : Nat) (s : St) : (recv x Gen.controlTable now s linkNew.frame).2 = some linkNew.m.expected :=
+  C06_header_all_new_any_state x _ now s linkNew (by decide) (by simp [AllNew, linkNew]) (by decide)
+    (C06_witness_link_conforms x).1
 
 /-! ### fragments -/
 
 /-- A MESSAGE SENT AS ONE FRAGMENT (`131, 69, seq, fragId = 1, N, flags, refs…, terms`) is handled exactly like the same
 message without fragmentation — same result, same state — for ANY content (valid or junk), any sequence id the assembler
-holds nothing for. With `C06_header_exactly_once_in_order` this delivers every single-fragment message of a peer. -/
-theorem C06_single_fragment_as_unfragmented (x : Ext) (tbl : Control.Table) (s : St) (seq : Nat) (n : UInt8) (rest : Bytes)
-    (hs : seq < 2 ^ 64) (h0 : Frag.lookup seq s.asm.pending = none) :
-    recv x tbl s (fragFirst seq 1 [n] rest) = recv x tbl s (131 :: 68 :: n :: rest) := by
-  have := recv_single_fragment x tbl s seq n rest hs h0
+holds nothing for, at any clock reading. -/
+theorem C06_single_fragment_as_unfragmented (x : Ext) (tbl : Control.Table) (now : Nat) (s : St) (seq : Nat) (n : UInt8)
+    (rest : Bytes) (hs : seq < 2 ^ 64) (h0 : Frag.lookup seq s.asm.pending = none) :
+    recv x tbl now s (fragFirst seq 1 [n] rest) = recv x tbl now s (131 :: 68 :: n :: rest) := by
+  have := recv_single_fragment x tbl now s seq n rest hs h0
   simpa [fragFirst] using this
 
-example (x : Ext) : (recv x Gen.controlTable St.init (fragFirst 7 1 [0] ([104, 1, 97, 5] ++ [106]))).2 = some nodeLink.expected := by
-  rw [C06_single_fragment_as_unfragmented x _ _ 7 0 _ (by omega) rfl]
-  have h : HSent.Conforms x Gen.controlTable { m := nodeLink, atoms := [], segs := [], long := false } :=
-    ⟨by decide, by simp, by simp, fun c _ => C06_witness_nodeLink_conforms x c⟩
-  exact congrArg Prod.snd (recv_header x Gen.controlTable St.init _ h)
+example (x : Ext) (now : Nat) : (recv x Gen.controlTable now St.init (fragFirst 7 1 [0] ([104, 1, 97, 5] ++ [106]))).2 =
+    some nodeLink.expected := by
+  rw [C06_single_fragment_as_unfragmented x _ now _ 7 0 _ (by omega) rfl]
+  exact C06_header_all_new_any_state x _ now St.init { m := nodeLink, long := false, es := [] } (by decide)
+    (by simp [AllNew]) (by simp) (fun c _ => C06_witness_nodeLink_conforms x c)
 
 /- THE PROPERTY FOR FRAGMENTED MESSAGES, full strength (NOT provable, see `C06_not_fragmented_delivered`):
    for every message, every cut `lens` of its terms' bytes, `outs x tbl s (fragmented seq hdr w lens)` is
@@ -133,16 +186,17 @@ example (x : Ext) : (recv x Gen.controlTable St.init (fragFirst 7 1 [0] ([104, 1
    The assembler (fragmentation.rs) concatenates the pieces by ASCENDING fragment id, the protocol by descending id
    (KF-C09-ascending-order, pinned by the repository's tests), so a message in two or more fragments comes out scrambled. -/
 
-/-- FRAGMENTED, PARTIAL (guard: two fragments, the second piece empty — the cuts that read the same in both orders):
-nothing is returned at the first frame, and the second frame returns exactly what the unfragmented message returns and
-leaves the same atom cache. -/
-theorem C06_fragmented_partial (x : Ext) (tbl : Control.Table) (s : St) (seq : Nat) (n : UInt8) (rest : Bytes)
-    (hs : seq < 2 ^ 64) (h0 : Frag.lookup seq s.asm.pending = none) :
-    (recv x tbl s (fragFirst seq 2 [n] rest)).2 = none ∧
-    (recv x tbl (recv x tbl s (fragFirst seq 2 [n] rest)).1 (fragCont seq 1 [])).2 = (recv x tbl s (131 :: 68 :: n :: rest)).2 ∧
-    (recv x tbl (recv x tbl s (fragFirst seq 2 [n] rest)).1 (fragCont seq 1 [])).1.cache =
-      (recv x tbl s (131 :: 68 :: n :: rest)).1.cache := by
-  have := recv_two_fragments x tbl s seq n rest hs h0
+/-- FRAGMENTED, PARTIAL (guard: two fragments, the second piece empty — the cuts that read the same in both orders —, the
+second frame read before the sequence times out): nothing is returned at the first frame, and the second frame returns
+exactly what the unfragmented message returns at that moment and leaves the same atom cache. -/
+theorem C06_fragmented_partial (x : Ext) (tbl : Control.Table) (now₁ now₂ : Nat) (s : St) (seq : Nat) (n : UInt8) (rest : Bytes)
+    (hs : seq < 2 ^ 64) (h0 : Frag.lookup seq s.asm.pending = none) (hlive : now₂ - now₁ ≤ s.asm.timeout) :
+    (recv x tbl now₁ s (fragFirst seq 2 [n] rest)).2 = none ∧
+    (recv x tbl now₂ (recv x tbl now₁ s (fragFirst seq 2 [n] rest)).1 (fragCont seq 1 [])).2 =
+      (recv x tbl now₂ s (131 :: 68 :: n :: rest)).2 ∧
+    (recv x tbl now₂ (recv x tbl now₁ s (fragFirst seq 2 [n] rest)).1 (fragCont seq 1 [])).1.cache =
+      (recv x tbl now₂ s (131 :: 68 :: n :: rest)).1.cache := by
+  have := recv_two_fragments x tbl now₁ now₂ s seq n rest hs h0 hlive
   simpa [fragFirst] using this
 
 /-- the guard is what `Spec.Peer.fragmented` produces for a cut that gives everything to the first fragment -/
@@ -153,27 +207,49 @@ the message `{5}` with payload `[]` cut after its control tuple into two fragmen
 as NODE_LINK with payload `[]`, makes `receive_message` return one error at the second frame and nothing else. -/
 theorem C06_not_fragmented_delivered :
     ∃ (seq : Nat) (hdr : Bytes) (m : Sent) (lens : List Nat), m.Conforms Ext.none Gen.controlTable [] ∧
-      (outs Ext.none Gen.controlTable St.init (fragmented seq hdr m.wire lens)).map (Option.map Res.text) =
+      (outs Ext.none Gen.controlTable St.init (atTime 0 (fragmented seq hdr m.wire lens))).map (Option.map Res.text) =
         [none, some "err"] ∧
-      (outs Ext.none Gen.controlTable St.init [withHeader hdr m.wire]).map (Option.map Res.text) =
+      (outs Ext.none Gen.controlTable St.init (atTime 0 [withHeader hdr m.wire])).map (Option.map Res.text) =
         [some "ok~NodeLink{}~N"] := by
   refine ⟨1, [0], nodeLink, [4], C06_witness_nodeLink_conforms _ _, by decide, ?_⟩
-  have h : HSent.Conforms Ext.none Gen.controlTable { m := nodeLink, atoms := [], segs := [], long := false } :=
-    ⟨by decide, by simp, by simp, fun c _ => C06_witness_nodeLink_conforms _ c⟩
-  have := recv_header Ext.none Gen.controlTable St.init _ h
-  have e : withHeader [0] nodeLink.wire = HSent.frame { m := nodeLink, atoms := [], segs := [], long := false } := by decide
-  simp only [outs, e, this, List.map_cons, List.map_nil, Option.map_some]
+  have := C06_header_all_new_any_state Ext.none Gen.controlTable 0 St.init { m := nodeLink, long := false, es := [] } (by decide)
+    (by simp [AllNew]) (by simp) (fun c _ => C06_witness_nodeLink_conforms _ c)
+  have e : withHeader [0] nodeLink.wire = CSent.frame { m := nodeLink, long := false, es := [] } := by decide
+  simp only [atTime, outs, e, this, List.map_cons, List.map_nil, Option.map_some]
   decide
+
+/-! ### the read-half copy in header mode -/
+
+/-- `receive_message_from_read_half` has no atom cache and no assembler: every frame that is not a tick and does not start
+with the pass-through marker — every `131, 68` / `131, 69` / `131, 70` frame of a header-mode peer in particular — is
+answered with an error. -/
+theorem C06_readhalf_refuses_header_frames (x : Ext) (tbl : Control.Table) (a : UInt8) (r : Bytes) (h : a ≠ 112) :
+    recvRH x tbl (a :: r) = some .err := by
+  simp [recvRH, h]
+
+/-- DEFECT (known finding KF-C06-read-half-header-mode): a message of a conforming header-mode sender that
+`receive_message` delivers is refused by `receive_message_from_read_half`. Not reachable through `edp_node` (`Node::connect`
+never offers DIST_HDR_ATOM_CACHE), only through the public API (`with_flags` + `take_read_half`). The guarded form of the
+property for this function is `C06_readhalf_exactly_once_in_order` (pass-through frames). -/
+theorem C06_not_readhalf_header_delivered (x : Ext) :
+    ∃ h : CSent, h.TermsConform x Gen.controlTable ∧ ConformingSeq [] [h.c14] ∧
+      (∀ now, (recv x Gen.controlTable now St.init h.frame).2 = some h.m.expected) ∧
+      recvRH x Gen.controlTable h.frame = some .err :=
+  ⟨linkNew, (C06_witness_link_conforms x).1,
+    by simp [ConformingSeq, Conforming, CSent.c14, linkNew, validUtf8, utf8Decode],
+    fun now => C06_header_all_new_any_state x _ now St.init linkNew (by decide) (by simp [AllNew, linkNew]) (by decide)
+      (C06_witness_link_conforms x).1,
+    C06_readhalf_refuses_header_frames x _ 131 _ (by decide)⟩
 
 /-! ### junk -/
 
-/-- NO PANIC: whatever the frame and the state, `receive_message` does not panic (every slice and index site of the path
-is a conditional panic in the model; the term decoder's own site is unreachable under the inflater's contract that it
-never reports more input consumed than it was given). -/
+/-- NO PANIC: whatever the frame, the state and the clock, `receive_message` does not panic (every slice and index site of
+the path is a conditional panic in the model — the `flags[..]` sites of the header parser included; the term decoder's own
+site is unreachable under the inflater's contract that it never reports more input consumed than it was given). -/
 theorem C06_no_panic (x : Ext) (hx : ∀ z out n, x.inflate z = some (out, n) → n ≤ z.length)
-    (tbl : Control.Table) (htbl : Control.TableOK tbl) (s : St) (frame : Bytes) :
-    (recv x tbl s frame).2 ≠ some .panic :=
-  recv_ne_panic (noDecPanic_of_inflate x hx) htbl s frame
+    (tbl : Control.Table) (htbl : Control.TableOK tbl) (now : Nat) (s : St) (frame : Bytes) :
+    (recv x tbl now s frame).2 ≠ some .panic :=
+  recv_ne_panic (noDecPanic_of_inflate x hx) htbl now s frame
 
 /-- … neither does `receive_message_from_read_half` -/
 theorem C06_readhalf_no_panic (x : Ext) (hx : ∀ z out n, x.inflate z = some (out, n) → n ≤ z.length)
@@ -189,104 +265,195 @@ theorem C06_decoder_no_panic (x : Ext) (hx : ∀ z out n, x.inflate z = some (ou
   dec_never_panics x hx cfg fuel d bs
 
 /-- PASS-THROUGH FRAMES NEITHER READ NOR WRITE THE STATE: a frame that starts with the pass-through marker — valid or
-junk — returns a result that depends on the frame alone and leaves atom cache and assembler as they were. -/
-theorem C06_passthrough_stateless (x : Ext) (tbl : Control.Table) (s s' : St) (r : Bytes) :
-    (recv x tbl s (112 :: r)).1 = s ∧ (recv x tbl s (112 :: r)).2 = (recv x tbl s' (112 :: r)).2 := by
+junk — returns a result that depends on the frame alone and leaves the atom cache as it was and the assembler as
+`cleanup_expired` leaves it. -/
+theorem C06_passthrough_stateless (x : Ext) (tbl : Control.Table) (now now' : Nat) (s s' : St) (r : Bytes) :
+    (recv x tbl now s (112 :: r)).1 = expire now s ∧ (recv x tbl now s (112 :: r)).2 = (recv x tbl now' s' (112 :: r)).2 := by
   simp [recv_112]
 
 /-- JUNK ISOLATION: insert ANY frame `junk` (random bytes, truncated terms, wrong markers, broken fragment headers,
 a valid message — anything) at any position of a history; if the frames after it are self-contained (their result does not
 depend on the state: `C06_selfcontained_frames`), then the frames before it return what they returned, the junk frame
 returns its own result (an error, or nothing), and EVERY LATER FRAME RETURNS EXACTLY WHAT IT RETURNS WITHOUT THE JUNK. -/
-theorem C06_junk_isolated (x : Ext) (tbl : Control.Table) (s : St) (good₁ good₂ : List Bytes) (junk : Bytes)
-    (h₂ : ∀ f ∈ good₂, SelfContained x tbl f) :
+theorem C06_junk_isolated (x : Ext) (tbl : Control.Table) (s : St) (good₁ good₂ : List TFrame) (junk : TFrame)
+    (h₂ : ∀ f ∈ good₂, SelfContained x tbl f.2) :
     outs x tbl s (good₁ ++ junk :: good₂) =
-      outs x tbl s good₁ ++ (recv x tbl (after x tbl s good₁) junk).2 :: outs x tbl (after x tbl s good₁) good₂ ∧
+      outs x tbl s good₁ ++ (recv x tbl junk.1 (after x tbl s good₁) junk.2).2 :: outs x tbl (after x tbl s good₁) good₂ ∧
     outs x tbl s (good₁ ++ good₂) = outs x tbl s good₁ ++ outs x tbl (after x tbl s good₁) good₂ :=
   ⟨outs_insert x tbl s good₁ good₂ junk h₂, outs_append x tbl good₁ good₂ s⟩
 
-/-- which frames are self-contained: ticks, every frame with the pass-through marker, and every message under the
-distribution header of a positional sender (it carries all its atoms) — i.e. every frame a conforming peer sends
-unfragmented -/
+/-- which frames are self-contained: ticks, every frame with the pass-through marker, and every header-mode message that
+brings all its atoms along (every reference a new entry — what the library's own sender writes) -/
 theorem C06_selfcontained_frames (x : Ext) (tbl : Control.Table) :
     SelfContained x tbl tick ∧ (∀ r, SelfContained x tbl (112 :: r)) ∧
-    (∀ h : HSent, h.Conforms x tbl → SelfContained x tbl h.frame) :=
-  ⟨selfContained_tick x tbl, selfContained_112 x tbl, selfContained_header x tbl⟩
+    (∀ h : CSent, h.es.length ≤ 255 → AllNew h.long h.es → (∀ e ∈ h.es, validUtf8 e.atom = true) → h.TermsConform x tbl →
+      SelfContained x tbl h.frame) := by
+  refine ⟨selfContained_tick x tbl, selfContained_112 x tbl, ?_⟩
+  intro h hn hall hv ht now now' s s'
+  rw [recv_allNew x tbl now s h hn hall hv ht, recv_allNew x tbl now' s' h hn hall hv ht]
 
-/-- junk between two header-mode messages: both are delivered, whatever the junk frame is and does -/
-example (x : Ext) (s : St) (junk : Bytes) :
-    outs x Gen.controlTable s ([nodeLinkH.frame] ++ junk :: [nodeLinkH.frame]) =
-      [some nodeLinkH.m.expected] ++ (recv x Gen.controlTable (after x Gen.controlTable s [nodeLinkH.frame]) junk).2 ::
-        [some nodeLinkH.m.expected] := by
-  have h := C06_witness_nodeLinkH_conforms x
+/-- junk between two such messages: both are delivered, whatever the junk frame is and does -/
+example (x : Ext) (s : St) (junk : TFrame) :
+    outs x Gen.controlTable s ([(1, linkNew.frame)] ++ junk :: [(2, linkNew.frame)]) =
+      [some linkNew.m.expected] ++ (recv x Gen.controlTable junk.1 (after x Gen.controlTable s [(1, linkNew.frame)]) junk.2).2 ::
+        [some linkNew.m.expected] := by
+  have h : ∀ now s, (recv x Gen.controlTable now s linkNew.frame).2 = some linkNew.m.expected := fun now s =>
+    C06_header_all_new_any_state x _ now s linkNew (by decide) (by simp [AllNew, linkNew]) (by decide) (C06_witness_link_conforms x).1
   rw [(C06_junk_isolated x Gen.controlTable s _ _ junk
-    (by intro f hf; simp at hf; subst hf; exact selfContained_header x _ _ h)).1]
-  simp [outs, recv_header x Gen.controlTable _ nodeLinkH h]
+    (by intro f hf; simp at hf; subst hf; intro now now' s s'; simp only; rw [h, h])).1]
+  simp [outs, h]
+
+/-- JUNK ISOLATION IN HEADER MODE, WITH THE ATOM CACHE CARRIED ALONG. A conforming sender's history `hs₁ ++ hs₂` (as in
+`C06_header_exactly_once_in_order`: cached references, overwrites, whole frames and single fragments, ticks anywhere) with
+ANY frame `junk` inserted between the two parts. The junk frame may have written cache slots behind the sender's back
+before it failed — a malformed distribution header keeps the new entries it read before the point of failure, a
+well-formed header with undecodable terms keeps all of them —: `wroteSlots` names exactly the slots written. Then: the
+messages before the junk are delivered, the junk frame returns its own result (an error, or nothing), and EVERY message
+after it is delivered exactly as the sender meant it, provided the later history does not READ one of the written slots
+(a reference without text) before WRITING it anew (`Avoids`) and its single-fragment sequence ids are still free. -/
+theorem C06_header_junk_isolated (x : Ext) (tbl : Control.Table) (s : St) (sndr : Slots)
+    (hs₁ hs₂ : List (CSent × Framing)) (tfs₁ tfs₂ : List TFrame) (junk : TFrame)
+    (hagree : SlotsAgree s.cache sndr) (hconf : ConformingSeq sndr ((hs₁ ++ hs₂).map (·.1.c14)))
+    (hterms : ∀ p ∈ hs₁ ++ hs₂, p.1.TermsConform x tbl) (hseq₁ : SeqsFree s.asm hs₁)
+    (hfs₁ : WithTicks (bodies tfs₁) (hs₁.map fun p => p.1.framed p.2))
+    (hfs₂ : WithTicks (bodies tfs₂) (hs₂.map fun p => p.1.framed p.2))
+    (hav : Avoids (wroteSlots (after x tbl s tfs₁).cache (recv x tbl junk.1 (after x tbl s tfs₁) junk.2).1.cache) (hs₂.map (·.1.c14)))
+    (hseq₂ : SeqsFree (recv x tbl junk.1 (after x tbl s tfs₁) junk.2).1.asm hs₂) :
+    (outs x tbl s (tfs₁ ++ junk :: tfs₂)).filterMap id =
+      hs₁.map (fun p => p.1.m.expected) ++ (recv x tbl junk.1 (after x tbl s tfs₁) junk.2).2.toList ++
+        hs₂.map (fun p => p.1.m.expected) := by
+  rw [List.map_append, conformingSeq_append] at hconf
+  obtain ⟨hc1, hc2⟩ := hconf
+  obtain ⟨h1, hag1⟩ := outs_cached x tbl tfs₁ hs₁ s sndr hagree hc1 (fun p hp => hterms p (by simp [hp])) hseq₁ hfs₁
+  have h2 := outs_cached_after_write x tbl tfs₂ hs₂ (after x tbl s tfs₁).cache
+    (recv x tbl junk.1 (after x tbl s tfs₁) junk.2).1 _ hag1 (recv_cache x tbl junk.1 _ junk.2).2 hc2 hav
+    (fun p hp => hterms p (by simp [hp])) hseq₂ hfs₂
+  rw [outs_append, List.filterMap_append, h1]
+  simp only [outs, List.filterMap_cons, id_eq]
+  cases hj : (recv x tbl junk.1 (after x tbl s tfs₁) junk.2).2 with
+  | none => simp [h2]
+  | some r => simp [h2]
+
+/-- a junk frame that writes no cache slot — every frame that is not `131, 68 | 69 | 70` (random bytes, wrong markers,
+unmarked terms, pass-through frames), and every other frame that fails before its header has written anything — costs
+nothing: ALL later messages of the sender are delivered -/
+theorem C06_header_junk_harmless (x : Ext) (tbl : Control.Table) (s : St) (sndr : Slots)
+    (hs : List (CSent × Framing)) (tfs : List TFrame) (junk : TFrame)
+    (hagree : SlotsAgree s.cache sndr) (hconf : ConformingSeq sndr (hs.map (·.1.c14)))
+    (hterms : ∀ p ∈ hs, p.1.TermsConform x tbl)
+    (hfs : WithTicks (bodies tfs) (hs.map fun p => p.1.framed p.2))
+    (hsame : (recv x tbl junk.1 s junk.2).1.cache = s.cache)
+    (hseq : SeqsFree (recv x tbl junk.1 s junk.2).1.asm hs) :
+    (outs x tbl s (junk :: tfs)).filterMap id = (recv x tbl junk.1 s junk.2).2.toList ++ hs.map (fun p => p.1.m.expected) := by
+  have := C06_header_junk_isolated x tbl s sndr [] hs [] tfs junk hagree (by simpa using hconf) (by simpa using hterms)
+    (by intro p hp; simp at hp) rfl hfs (by simp only [after]; rw [hsame, wroteSlots_self]; exact avoids_nil _) hseq
+  simpa [after] using this
+
+/-- … and the frames that are not `131, 68 | 69 | 70` indeed leave the cache exactly as it was -/
+theorem C06_unmarked_junk_keeps_cache (x : Ext) (tbl : Control.Table) (now : Nat) (s : St) (frame : Bytes)
+    (h : ∀ b r, frame = 131 :: b :: r → b ≠ 68 ∧ b ≠ 69 ∧ b ≠ 70) : (recv x tbl now s frame).1.cache = s.cache :=
+  recv_cache_same x tbl now s frame h
+
+/-- non-vacuity of the guard: the malformed header `131, 68, 3, 0x88, 0x08, 0, 1, a, 1` (three references announced, the
+frame ends inside the second) has written slot (0, 0) before failing — and nothing else -/
+example : wroteSlots St.init.cache (recv Ext.none Gen.controlTable 0 St.init [131, 68, 3, 0x88, 0x08, 0, 1, 97, 1]).1.cache = [(0, 0)] ∧
+    (recv Ext.none Gen.controlTable 0 St.init [131, 68, 3, 0x88, 0x08, 0, 1, 97, 1]).2.map Res.text = some "err" := by decide
+
+/-- a message that re-creates slot (3, 7) and one that only reads it: after a junk frame that wrote slot (3, 7), the first
+avoids the doubt, the second does not -/
+example : Avoids [(3, 7)] [linkNew.c14, linkOld.c14] ∧ ¬ Avoids [(3, 7)] [linkOld.c14] := by
+  simp [Avoids, AvoidsRefs, taintStep, taintAfter, CSent.c14, linkNew, linkOld]
 
 /-- ON A PASS-THROUGH CONNECTION JUNK IS ISOLATED UNCONDITIONALLY: if every other frame carries the pass-through marker (or
 is a tick) — valid or not —, a junk frame anywhere changes nothing but its own entry. -/
-theorem C06_passthrough_junk_isolated (x : Ext) (tbl : Control.Table) (s : St) (good₁ good₂ : List Bytes) (junk : Bytes)
-    (h₂ : ∀ f ∈ good₂, f = [] ∨ ∃ r, f = 112 :: r) :
+theorem C06_passthrough_junk_isolated (x : Ext) (tbl : Control.Table) (s : St) (good₁ good₂ : List TFrame) (junk : TFrame)
+    (h₂ : ∀ f ∈ good₂, f.2 = [] ∨ ∃ r, f.2 = 112 :: r) :
     outs x tbl s (good₁ ++ junk :: good₂) =
-      outs x tbl s good₁ ++ (recv x tbl (after x tbl s good₁) junk).2 :: outs x tbl s good₂ := by
-  have hsc : ∀ f ∈ good₂, SelfContained x tbl f := by
+      outs x tbl s good₁ ++ (recv x tbl junk.1 (after x tbl s good₁) junk.2).2 :: outs x tbl s good₂ := by
+  have hsc : ∀ f ∈ good₂, SelfContained x tbl f.2 := by
     intro f hf
-    rcases h₂ f hf with rfl | ⟨r, rfl⟩
-    · exact selfContained_tick x tbl
-    · exact selfContained_112 x tbl r
+    rcases h₂ f hf with h | ⟨r, h⟩
+    · rw [h]; exact selfContained_tick x tbl
+    · rw [h]; exact selfContained_112 x tbl r
   rw [outs_insert x tbl s good₁ good₂ junk hsc, outs_selfContained x tbl good₂ hsc (after x tbl s good₁) s]
 
-/-- WHAT A FRAME — in particular an erroring one — MAY CHANGE: the atom cache only gains entries in front (a half-parsed
-distribution header keeps the references it read before the error), and in the fragment assembler no entry but that of the
-sequence id the frame itself names is touched. Nothing else is state. -/
-theorem C06_frame_effect (x : Ext) (tbl : Control.Table) (s : St) (frame : Bytes) :
-    s.cache <:+ (recv x tbl s frame).1.cache ∧
-    ∀ q, fragSeq frame ≠ some q → Frag.lookup q (recv x tbl s frame).1.asm.pending = Frag.lookup q s.asm.pending :=
-  ⟨recv_cache x tbl s frame, fun q hq => recv_asm_other x tbl s frame q hq⟩
+/-- WHAT A FRAME — in particular an erroring one — MAY CHANGE: both tables of the atom cache only gain entries in front
+(a half-parsed distribution header keeps the references it read before the error), and in the fragment assembler, once
+`cleanup_expired` has run, no entry but that of the sequence id the frame itself names is touched. Nothing else is state. -/
+theorem C06_frame_effect (x : Ext) (tbl : Control.Table) (now : Nat) (s : St) (frame : Bytes) :
+    CacheGrew s.cache (recv x tbl now s frame).1.cache ∧
+    ∀ q, fragSeq frame ≠ some q →
+      Frag.lookup q (recv x tbl now s frame).1.asm.pending = Frag.lookup q (s.asm.cleanupExpired now).1.pending :=
+  ⟨recv_cache x tbl now s frame, fun q hq => recv_asm_other x tbl now s frame q hq⟩
 
-/-- frames that are no fragment frames (`fragSeq = none`) leave the whole assembler alone -/
-example (x : Ext) (s : St) (q : Nat) :
-    Frag.lookup q (recv x Gen.controlTable s [131, 68, 9, 9]).1.asm.pending = Frag.lookup q s.asm.pending :=
-  (C06_frame_effect x Gen.controlTable s [131, 68, 9, 9]).2 q (by simp [fragSeq])
+/-- THE CONNECTION'S ASSEMBLER IS C09'S, FRAME BY FRAME: whatever the frames are, `receive_message` does to its fragment
+assembler exactly what `Frag.Assembler.onFrame` describes — `cleanup_expired` at the clock reading of the frame, then
+`start_fragment` / `add_fragment` for a fragment frame that got past the id check (`fragOp`), nothing for any other
+frame — so every theorem of C09 about `afterFrames` speaks about a connection. -/
+theorem C06_assembler_per_frame (x : Ext) (tbl : Control.Table) (s : St) (tfs : List TFrame) (now : Nat) (frame : Bytes) :
+    (recv x tbl now s frame).1.asm = (s.asm.onFrame now (fragOp now frame)).1 ∧
+    (after x tbl s tfs).asm = s.asm.afterFrames (tfs.map fun f => (f.1, fragOp f.1 f.2)) :=
+  ⟨recv_asm_onFrame x tbl now s frame, after_asm_afterFrames x tbl tfs s⟩
+
+/-- … in particular NOTHING IS HELD FOR EVER: on a connection (fresh state), after any history and any further frame —
+valid or junk, stray continuations and never-completed sequences included — every sequence the assembler still holds is
+incomplete and was touched within the fragment timeout of that frame's clock reading (the consequence of 96b6d89 for the
+connection; before it a stray `131, 70` was held for the lifetime of the connection). -/
+theorem C06_connection_holds_only_live_sequences (x : Ext) (tbl : Control.Table) (tfs : List TFrame) (now : Nat) (frame : Bytes)
+    (q : Nat) (m : Frag.FragMsg)
+    (h : Frag.lookup q (recv x tbl now (after x tbl St.init tfs) frame).1.asm.pending = some m) :
+    m.isComplete = false ∧ now - m.last ≤ Gen.DEFAULT_FRAGMENT_TIMEOUT_MS := by
+  rw [recv_asm_onFrame, after_asm_afterFrames] at h
+  exact (Props.C09.C09_after_every_frame_only_unexpired_incomplete Frag.DEFAULT_FRAGMENT_TIMEOUT _ now (fragOp now frame)
+    (fun op hop => by rw [fragOp_now now frame op hop]; exact Nat.le_refl _)).2 q m h
+
+/-- a stray continuation for sequence 7 is pending right after its frame (so the statement is not empty) -/
+example : (Frag.lookup 7 (recv Ext.none Gen.controlTable 0 St.init (fragCont 7 3 [1, 2])).1.asm.pending).isSome = true := by decide
+
+/-- frames that are no fragment frames (`fragSeq = none`) leave the whole assembler to `cleanup_expired` -/
+example (x : Ext) (now : Nat) (s : St) (q : Nat) :
+    Frag.lookup q (recv x Gen.controlTable now s [131, 68, 9, 9]).1.asm.pending = Frag.lookup q (s.asm.cleanupExpired now).1.pending :=
+  (C06_frame_effect x Gen.controlTable now s [131, 68, 9, 9]).2 q (by simp [fragSeq])
 
 /-- MALFORMED FRAMES ARE ERRORS, NOT MESSAGES: a frame that is neither a tick nor starts with `112` or `131, 68 | 69 | 70`
-is answered with an error, in every state, and changes nothing. -/
-theorem C06_unmarked_frame_rejected (x : Ext) (tbl : Control.Table) (s : St) (a : UInt8) (r : Bytes)
+is answered with an error, in every state, and changes nothing (beyond the `cleanup_expired` of every frame). -/
+theorem C06_unmarked_frame_rejected (x : Ext) (tbl : Control.Table) (now : Nat) (s : St) (a : UInt8) (r : Bytes)
     (h112 : a ≠ 112) (h131 : a = 131 → ∀ b r', r = b :: r' → b ≠ 68 ∧ b ≠ 69 ∧ b ≠ 70) :
-    recv x tbl s (a :: r) = (s, some .err) := by
+    recv x tbl now s (a :: r) = (expire now s, some .err) := by
   cases r with
-  | nil => simp [recv, h112]
+  | nil => simp [recv, dispatch, h112]
   | cons b r' =>
     by_cases ha : a = 131
     · obtain ⟨h1, h2, h3⟩ := h131 ha b r' rfl
-      simp [recv, h112, h1, h2, h3]
-    · simp [recv, h112, ha]
+      simp [recv, dispatch, h112, h1, h2, h3]
+    · simp [recv, dispatch, h112, ha]
 
-example (x : Ext) (s : St) : recv x Gen.controlTable s [131, 104, 1, 97, 5] = (s, some .err) :=
-  C06_unmarked_frame_rejected x _ s 131 _ (by decide) (by intro _ b r' h; simp at h; obtain ⟨rfl, _⟩ := h; decide)
+example (x : Ext) (now : Nat) (s : St) : recv x Gen.controlTable now s [131, 104, 1, 97, 5] = (expire now s, some .err) :=
+  C06_unmarked_frame_rejected x _ now s 131 _ (by decide) (by intro _ b r' h; simp at h; obtain ⟨rfl, _⟩ := h; decide)
 
 /-- … and so is a pass-through frame with bytes left over after its payload term -/
-theorem C06_trailing_bytes_rejected (x : Ext) (tbl : Control.Table) (s : St) (m : Sent) (hc : m.Conforms x tbl [])
+theorem C06_trailing_bytes_rejected (x : Ext) (tbl : Control.Table) (now : Nat) (s : St) (m : Sent) (hc : m.Conforms x tbl [])
     (pb : Bytes) (p : Term) (hp : m.pay = some (pb, p)) (extra : UInt8) (more : Bytes) :
-    recv x tbl s (passThrough m.wire ++ extra :: more) = (s, some .err) := by
+    recv x tbl now s (passThrough m.wire ++ extra :: more) = (expire now s, some .err) := by
   obtain ⟨hctl, hpay, _⟩ := hc
   have e1 := decodeTrailing_reads x m.cb (131 :: (pb ++ extra :: more)) m.ct hctl
   have e2 := decodeTrailing_reads x pb (extra :: more) p (hpay pb p hp)
-  simp [passThrough, Sent.wire, hp, recv, passThroughBody, e1, e2]
+  simp [passThrough, Sent.wire, hp, recv, dispatch, passThroughBody, e1, e2]
 
-example (x : Ext) (s : St) : recv x Gen.controlTable s (passThrough nodeLink.wire ++ [106]) = (s, some .err) :=
-  C06_trailing_bytes_rejected x _ s nodeLink (C06_witness_nodeLink_conforms x []) [106] .nil rfl 106 []
+example (x : Ext) (now : Nat) (s : St) : recv x Gen.controlTable now s (passThrough nodeLink.wire ++ [106]) = (expire now s, some .err) :=
+  C06_trailing_bytes_rejected x _ now s nodeLink (C06_witness_nodeLink_conforms x []) [106] .nil rfl 106 []
 
 /-- a fragment with id 0 is answered with an error and leaves the state alone -/
-theorem C06_fragment_id_zero_rejected (x : Ext) (tbl : Control.Table) (s : St) (seq : Nat) (hs : seq < 2 ^ 64) (n : UInt8)
-    (rest : Bytes) :
-    recv x tbl s (fragFirst seq 0 [n] rest) = (s, some .err) ∧ recv x tbl s (fragCont seq 0 rest) = (s, some .err) := by
+theorem C06_fragment_id_zero_rejected (x : Ext) (tbl : Control.Table) (now : Nat) (s : St) (seq : Nat) (hs : seq < 2 ^ 64)
+    (n : UInt8) (rest : Bytes) :
+    recv x tbl now s (fragFirst seq 0 [n] rest) = (expire now s, some .err) ∧
+    recv x tbl now s (fragCont seq 0 rest) = (expire now s, some .err) := by
   constructor
   · have := decodeFragmentHeader_ok seq 0 n rest hs (by omega)
     simp only [fragFirst, List.append_assoc, List.singleton_append] at this ⊢
-    simp [recv, recvFragHeader, this]
+    simp [recv, dispatch, recvFragHeader, this]
   · have := decodeFragmentCont_ok seq 0 rest hs (by omega)
     simp only [fragCont, List.append_assoc] at this ⊢
-    simp [recv, recvFragCont, this]
+    simp [recv, dispatch, recvFragCont, this]
 
 end Edp.Props.C06
